@@ -226,7 +226,12 @@ def seeded(ctx):
             b.set_seed(r.randrange(1 << 30))
             transcript_ops(b, [('reset', None), ('obs', None)] + [x for _ in range(r.choice([0, 0, 1, 3])) for x in (('step', r.choice(desc['actions'])), ('obs', None))])
             b.set_seed(seed)
+            # giving an environment a generator of its own -- from a seed or, with None, from fresh entropy -- touches no global generator
+            np1, py1, gv1 = impl._np_legacy_state(), pyrandom.getstate(), gvrng.get_gv_rng().bit_generator.state
+            c.set_seed(None)
             c.set_seed(r.randrange(1 << 30))
+            if impl._np_legacy_state() != np1 or pyrandom.getstate() != py1 or gvrng.get_gv_rng().bit_generator.state != gv1:
+                ctx.violation(f'{name}: set_seed (None, then an integer) changed a global generator state', {'env': name})
             c._state = c._observation = None
             tb = []
             for op in ops:
